@@ -311,8 +311,11 @@ Inductive attr := A1 (setter : string) (v : tok) | A2 (setter key : string) (v :
 (* a Data literal: token of its value; does it have masked elements *)
 Definition dtok := (tok * bool)%type.
 
-(* properties / netCDF variable name ([v_head], emitted before the data) and data *)
-Record var := mkV { v_cls : string; v_head : list attr; v_data : option dtok }.
+(* properties / netCDF variable name ([v_head], emitted before the data), data,
+   and what the class emits after the data ([v_tail]: Bounds - the name of the
+   trailing netCDF dimension) *)
+Record var := mkV { v_cls : string; v_head : list attr; v_data : option dtok;
+                    v_tail : list attr }.
 
 (* which creation_commands method the class inherits (decides the refusals):
    FPlain  DomainAxis, CellMethod, CoordinateReference
@@ -352,11 +355,12 @@ Definition compile_data (x : string) (d : dtok) : result (list cmd) :=
 (* mixin.Properties / PropertiesData .creation_commands *)
 Definition compile_var (x dn : string) (v : var) : result (list cmd) :=
   match v_data v with
-  | None => Ok (CNew x (v_cls v) :: map (CAttr x) (v_head v))
+  | None => Ok (CNew x (v_cls v) :: map (CAttr x) (v_head v) ++ map (CAttr x) (v_tail v))
   | Some d =>
       if String.eqb x dn then Err ValueErr else
       rbind (compile_data dn d) (fun cd =>
-      Ok (CNew x (v_cls v) :: map (CAttr x) (v_head v) ++ cd ++ [CSub x "set_data" dn]))
+      Ok (CNew x (v_cls v) :: map (CAttr x) (v_head v) ++ cd ++ [CSub x "set_data" dn] ++
+          map (CAttr x) (v_tail v)))
   end.
 
 Definition compile_sub (x setter sub dn : string) (o : option var) : result (list cmd) :=
@@ -389,7 +393,7 @@ Definition compile_acon (fixed : bool) (n : names) (a : acon) : result (list cmd
   match a_fam a with
   | FPlain =>
       Ok (CNew (n_name n) (v_cls (a_var a)) ::
-          map (CAttr (n_name n)) (v_head (a_var a) ++ a_pre a ++ a_post a))
+          map (CAttr (n_name n)) (v_head (a_var a) ++ v_tail (a_var a) ++ a_pre a ++ a_post a))
   | _ =>
       rbind (compile_var (n_name m) (n_data m) (a_var a)) (fun cv =>
       rbind (compile_sub (n_name m) "set_bounds" (n_bounds m) (n_data m) (a_bounds a)) (fun cb =>
@@ -496,16 +500,18 @@ Fixpoint run (cs : list cmd) (e : env) : option env :=
   end.
 
 (* ---- what an abstract value denotes ---- *)
-Definition den_var (v : var) : sobj := mkS (v_cls v) (v_head v) (v_data v).
+Definition den_var (v : var) : sobj := mkS (v_cls v) (v_head v ++ v_tail v) (v_data v).
 
 Definition den_acon (a : acon) : cobj :=
-  mkC (mkS (v_cls (a_var a)) (v_head (a_var a) ++ a_pre a ++ a_post a) (v_data (a_var a)))
+  mkC (mkS (v_cls (a_var a)) (v_head (a_var a) ++ v_tail (a_var a) ++ a_pre a ++ a_post a)
+           (v_data (a_var a)))
       (option_map den_var (a_bounds a)) (option_map den_var (a_ring a)).
 
 Definition den_item (it : item) : entry := (den_acon (i_con it), i_axes it, i_key it).
 
 Definition den_fld (f : fld) : fobj :=
-  mkO (mkC (mkS (v_cls (f_var f)) (v_head (f_var f) ++ f_mid f ++ f_post f) (v_data (f_var f)))
+  mkO (mkC (mkS (v_cls (f_var f)) (v_head (f_var f) ++ v_tail (f_var f) ++ f_mid f ++ f_post f)
+                (v_data (f_var f)))
            None None)
       (map den_item (f_items f)).
 
